@@ -60,7 +60,9 @@ def net_strategy(dll, max_stacks=4, max_msgs=8, allow_zero_latency=True, min_len
                            "cas": cas, "ecu_listener": draw(st.booleans()),
                            "lat": draw(_lat_list(allow_zero_latency)),
                            "tx_time": draw(st.sampled_from([0.0, 0.0, 0.0, 0.0001, 0.0005, 0.002])),
-                           "slow_rx": draw(st.sampled_from([0.0, 0.0, 0.0, 0.001, 0.02]))})
+                           "slow_rx": draw(st.sampled_from([0.0, 0.0, 0.0, 0.001, 0.02])),
+                           # time a frame write of a stack thread waits before the frame is on the bus (transmit queue, lock)
+                           "tx_pre": draw(st.sampled_from([0.0, 0.0, 0.0, 0.0003, 0.001]))})
         unowned = [a for a in naddr[ai:]]
         nm = draw(st.integers(1, max_msgs))
         msgs = []
@@ -70,7 +72,7 @@ def net_strategy(dll, max_stacks=4, max_msgs=8, allow_zero_latency=True, min_len
             kind = draw(st.sampled_from(["p2p", "p2p", "p2p", "bc1", "bc2", "unowned"]))
             m = {"t": draw(st.sampled_from([0, 0, 0, 1, 2, 5, 10, 20, 50, 100])), "src": [si, ci], "kind": kind,
                  "dp": draw(st.integers(0, 1)), "prio": draw(st.integers(0, 7)),
-                 "ctx": draw(st.sampled_from(["app", "app", "timer", "on_rx"])),
+                 "ctx": draw(st.sampled_from(["app", "app", "timer", "on_rx", "retry"])),
                  "pl": draw(payload_spec(length, seg))}
             if kind == "bc2":
                 m["pf"] = draw(st.integers(240, 255))
@@ -99,6 +101,8 @@ def limit_tx_time(params):
         burst = sum(min(255, -(-m["pl"]["n"] // seg)) for m in params["msgs"] if m["src"][0] == i and m["pl"]["n"] > (60 if seg == 60 else 8))
         if stk.get("tx_time", 0.0) * burst > 0.1:
             stk["tx_time"] = 0.0001 if burst * 0.0001 <= 0.1 else 0.0
+        if stk.get("tx_pre", 0.0) * burst > 0.1:
+            stk["tx_pre"] = 0.0
     return params
 
 
@@ -133,7 +137,7 @@ def duration_bound(params, m, bam_dt):
     if not multi(params, m):
         return 0.0
     maxlat = max(max(s["lat"]) for s in params["stacks"])
-    slack = 2 * max(params["eps"]) + 2 * max(params["disp"]) + 0.0005 + 3 * max(s.get("tx_time", 0.0) for s in params["stacks"])
+    slack = 2 * max(params["eps"]) + 2 * max(params["disp"]) + 0.0005 + 3 * max(s.get("tx_time", 0.0) + s.get("tx_pre", 0.0) for s in params["stacks"])
     slow = max(s.get("slow_rx", 0.0) for s in params["stacks"]) * (len(params["msgs"]) + 2) * 2
     n = packets(params, m)
     if m["kind"] in ("bc1", "bc2"):
@@ -148,15 +152,28 @@ def schedule(params, bam_dt, serialize_pairs=True):
     """Absolute submit offsets (s).  A multi-packet message whose (SA,DA) pair is still busy by the
     model is moved behind the earlier transfer (construction instead of rejection)."""
     free = {}
+    prev = {}
     out = []
+    seg = 60 if params["dll"] == "j1939-22" else 7
     for m in params["msgs"]:
         t = 0.05 + m["t"] / 1000.0
         if multi(params, m) and serialize_pairs:
             sa = params["stacks"][m["src"][0]]["cas"][m["src"][1]]["addr"]
             key = (sa, dest_addr(params, m))
             if key in free and t < free[key]:
+                if m.get("ctx") == "retry" and prev[key][1] <= 10:
+                    # the application does not wait: it retries send_pgn every 0.2 ms from shortly after the start of the
+                    # (short) earlier transfer on this pair until the call is accepted - at the latest when the model's upper
+                    # bound says the pair is free
+                    m["_retry_until"] = free[key] + 0.1
+                    t = max(t, prev[key][0] + 0.005)
+                    free[key] = free[key] + duration_bound(params, m, bam_dt) + 0.3
+                    prev[key] = (free[key], 10 ** 6)
+                    out.append(t)
+                    continue
                 t = free[key]
             free[key] = t + duration_bound(params, m, bam_dt) + 0.3
+            prev[key] = (t, -(-m["pl"]["n"] // seg))
         out.append(t)
     return out
 
@@ -213,7 +230,7 @@ def build_world(params, bam_dt=None, rts_cts_dt=None, **bus_kw):
     stacks = []
     for i, s in enumerate(params["stacks"]):
         stk = w.stack("s%d" % i, dll=params["dll"], max_cmdt=s["max_cmdt"], bam_dt=bam_dt, rts_cts_dt=rts_cts_dt,
-                      tx_time=s.get("tx_time", 0.0))
+                      tx_time=s.get("tx_time", 0.0), tx_pre=s.get("tx_pre", 0.0))
         for j, ca in enumerate(s["cas"]):
             stk.add_ca("ca%d" % j, 0x1000 + 16 * i + j, ca["addr"], bypass=True)
             stk.listen_ca("ca%d" % j, "s%d.ca%d" % (i, j), slow=s.get("slow_rx", 0.0) if j == 0 else 0.0)
@@ -252,11 +269,27 @@ def submit_all(w, stacks, params, times, results):
             # arrives within 0.5 s it sends from the application context instead.  Only single-frame messages use this
             # context (a multi-packet one would need a free address pair at an instant the model does not know).
             stk = stacks[m["src"][0]]
-            stk.rx_hooks.append(lambda lname, mi=mi: do() if mi not in results else None)
-            w.sim.schedule(w.sim.now + 0.5, lambda mi=mi: do() if mi not in results else None)
+            fired = []
+
+            def once(*a):
+                if not fired:          # (the call itself may take time: a second trigger must not send it again)
+                    fired.append(1)
+                    do()
+            stk.rx_hooks.append(once)
+            w.sim.schedule(w.sim.now + 0.5, once)
+
+        me = {}
+
+        def via_retry(mi=mi, m=m, do=do, me=me):
+            do()
+            if results[mi][1] is False and w.sim.now - w.t0 < m["_retry_until"]:
+                w.sim.schedule(w.sim.now + 0.0002, me["f"])
+        me["f"] = via_retry
 
         if m["ctx"] == "on_rx" and not multi(params, m):
             w.at(t, via_rx)
+        elif m.get("_retry_until") is not None:
+            w.at(t, via_retry)
         else:
             w.at(t, via_timer if m["ctx"] == "timer" else do)
 
